@@ -746,6 +746,13 @@ theorem struct_base_types_roundtrip :
       .ok ⟨"P", [([], "S", .nil), ([], "T", .cons (.both (.id "U") (.mk [] "U" .nil .empty)) .nil)], []⟩ [.p .Eof] := by
   refine ⟨by decide, by rfl⟩
 
+/-- **definition_header_tables_agree.** `format_function` prints the template parameter list and the attributes in the order
+in which `parse_function_definition` reads them (df99070: the formatter used to print the attributes first and the text
+`[numthreads(8,8,1)] template<typename T> void f()` was rejected), and `format_struct` prints the base types that
+`parse_struct_definition` reads (2e907a1).  Template parameter lists themselves are outside the tree types. -/
+theorem definition_header_tables_agree :
+    templateParamsBeforeAttributes = parserReadsTemplateParamsFirst ∧ structPrintsBaseTypes = true := by decide
+
 /-- `void f(int a = (x, y));` -/
 def defaultCommaFn : FnDef :=
   ⟨[], [], "void", .nil, "f", [⟨[], "int", .nil, .name "a", none, some (.bin .Sequence (.id "x") (.id "y"))⟩], none, none⟩
